@@ -412,6 +412,19 @@ pub assume_specification<'a, 'b, 'c> [core::fmt::DebugStruct::<'a, 'b>::field] (
 pub assume_specification<'a, 'b> [core::fmt::DebugStruct::<'a, 'b>::finish] (d: &mut core::fmt::DebugStruct<'a, 'b>) -> (r: core::fmt::Result)
     where 'b: 'a,
     ensures r == sfin(ds_trace(old(d)));
+// ---- unions (C20, Debug): the raw byte view and the slice's own Debug are stubs with assumed contracts
+/// the n bytes starting at x, as a slice (what `slice::from_raw_parts(x as *const T as *const u8, n)` denotes)
+pub uninterp spec fn spec_view<T>(x: &T, n: int) -> &'static [u8];
+#[verifier::external_body]
+pub fn bytes_view<T>(x: &T, n: usize) -> (r: &[u8])
+    ensures r == spec_view(x, n as int)
+{ unsafe { ::core::slice::from_raw_parts(x as *const T as *const u8, n) } }
+/// result of `<[u8] as Debug>::fmt` on the slice s with the formatter in state st
+pub uninterp spec fn slice_fmt(s: Seq<u8>, st: int) -> core::fmt::Result;
+#[verifier::external_body]
+pub fn slice_debug_fmt(x: &[u8], f: &mut core::fmt::Formatter<'_>) -> (r: core::fmt::Result)
+    ensures r == slice_fmt(x@, f_state(old(f)))
+{ ::core::fmt::Debug::fmt(x, f) }
 // facts about core::fmt that keep harmless refactors from alarming: a builder finished
 // without any field writes exactly its name
 pub mod fmt_ax {
